@@ -24,6 +24,7 @@ import (
 	"bytes"
 	"fmt"
 	"go/ast"
+	"go/parser"
 	"go/printer"
 	"go/token"
 	"go/types"
@@ -124,20 +125,31 @@ func listFuncs(pkgs map[string]*packages.Package) []string {
 	return out
 }
 
+// ifaceAliases: see singleImplNewIfaces (set by the loader before the normaliser runs).
+var ifaceAliases map[*types.TypeName]types.Type
+
 type newHelper struct {
 	key      string
 	decl     *ast.FuncDecl
 	obj      *types.Func
 	pkg      *packages.Package
 	file     *ast.File
-	unusable string            // reason, "" if it can be inlined in statement form
-	mustLit  bool              // only as an immediately invoked function literal
+	unusable string                  // reason, "" if it can be inlined in statement form
+	mustLit  bool                    // only as an immediately invoked function literal
 	free     map[string]types.Object // package-level / imported names the declaration uses
-	imports  map[string]string // local package name → import path used by the declaration
+	imports  map[string]string       // local package name → import path used by the declaration
 	// wrapper: the body is one `return expr` that mentions nothing unexported of its own package:
 	// a call can be replaced by expr with the parameters substituted, in any package
 	wrapper     bool
 	wrapImports map[string]string // imports the wrapper's expression needs
+	tparams     []string          // names of the type parameters of a generic function
+	// localWrapper: the body is one `return expr` without function literals: inside its own
+	// package a call is replaced by expr with the arguments substituted
+	localWrapper bool
+	// otherLit: needs the literal form for a reason other than a defer statement (named
+	// results, labels, goto, recover); a helper whose only obstacle is `defer` can still be
+	// spliced in where its call is the operand of a return statement
+	otherLit bool
 }
 
 // normalizeNewHelpers returns overlay contents for the files in which calls were inlined.
@@ -146,7 +158,38 @@ func normalizeNewHelpers(fset *token.FileSet, mod map[string]*packages.Package, 
 	var notes []string
 	renamedFiles, rnotes := renameBack(mod, reviewed)
 	notes = append(notes, rnotes...)
+	// new single-implementation interfaces are declared as aliases of the concrete type
+	for tn, conc := range ifaceAliases {
+		for _, p := range mod {
+			if p.Types != tn.Pkg() {
+				continue
+			}
+			for _, f := range p.Syntax {
+				for _, d := range f.Decls {
+					gd, ok := d.(*ast.GenDecl)
+					if !ok || gd.Tok != token.TYPE {
+						continue
+					}
+					for _, sp := range gd.Specs {
+						ts, ok := sp.(*ast.TypeSpec)
+						if !ok || p.TypesInfo.Defs[ts.Name] != types.Object(tn) {
+							continue
+						}
+						e, ok := typeExprIn(conc, f, p)
+						if !ok {
+							continue
+						}
+						ts.Assign = ts.Name.End()
+						ts.Type = e
+						renamedFiles[f] = p
+						notes = append(notes, "normalisation: interface "+tn.Name()+" (not on the reviewed tree, only ever holding a "+types.TypeString(conc, pathQualifier)+") declared as an alias of that type")
+					}
+				}
+			}
+		}
+	}
 	notes = append(notes, fixSignatures(mod, reviewed, renamedFiles)...)
+	notes = append(notes, rewriteFuncTables(mod, renamedFiles)...)
 	for path, p := range mod {
 		for _, f := range p.Syntax {
 			for _, d := range f.Decls {
@@ -230,7 +273,27 @@ func analyseHelper(h *newHelper) {
 	fd := h.decl
 	info := h.pkg.TypesInfo
 	if fd.Type.TypeParams != nil && len(fd.Type.TypeParams.List) > 0 {
-		h.unusable = "generic"
+		// a generic function: inlined with the type arguments of the call written out, provided
+		// nothing in it declares another thing under a type parameter's name
+		for _, fl := range fd.Type.TypeParams.List {
+			for _, n := range fl.Names {
+				h.tparams = append(h.tparams, n.Name)
+			}
+		}
+		isTP := map[string]bool{}
+		for _, n := range h.tparams {
+			isTP[n] = true
+		}
+		ast.Inspect(fd, func(n ast.Node) bool {
+			if id, ok := n.(*ast.Ident); ok && isTP[id.Name] {
+				if o := info.Defs[id]; o != nil {
+					if tn, ok := o.(*types.TypeName); !ok || !isTypeParam(tn.Type()) {
+						h.unusable = "generic: type parameter name shadowed"
+					}
+				}
+			}
+			return true
+		})
 	}
 	if fd.Recv != nil {
 		// methods of generic types
@@ -249,6 +312,7 @@ func analyseHelper(h *newHelper) {
 		for _, fl := range fd.Type.Results.List {
 			if len(fl.Names) > 0 {
 				h.mustLit = true // named results
+				h.otherLit = true
 			}
 		}
 	}
@@ -267,13 +331,16 @@ func analyseHelper(h *newHelper) {
 			h.mustLit = true
 		case *ast.LabeledStmt:
 			h.mustLit = true
+			h.otherLit = true
 		case *ast.BranchStmt:
 			if x.Tok == token.GOTO {
 				h.mustLit = true
+				h.otherLit = true
 			}
 		case *ast.CallExpr:
 			if id, ok := x.Fun.(*ast.Ident); ok && id.Name == "recover" {
 				h.mustLit = true
+				h.otherLit = true
 			}
 			if typeutil.Callee(info, x) == types.Object(h.obj) {
 				h.unusable = "recursive"
@@ -311,12 +378,14 @@ func analyseWrapper(h *newHelper) {
 	}
 	info := h.pkg.TypesInfo
 	okAll := true
+	okLocal := len(h.tparams) == 0
 	uses := map[types.Object]int{}
 	h.wrapImports = map[string]string{}
 	ast.Inspect(ret.Results[0], func(n ast.Node) bool {
 		switch x := n.(type) {
 		case *ast.FuncLit:
 			okAll = false
+			okLocal = false
 			return false
 		case *ast.Ident:
 			o := info.Uses[x]
@@ -354,7 +423,8 @@ func analyseWrapper(h *newHelper) {
 			okAll = false
 		}
 	}
-	h.wrapper = okAll
+	h.wrapper = okAll && len(h.tparams) == 0
+	h.localWrapper = okLocal
 }
 
 func noteFree(h *newHelper, info *types.Info, id *ast.Ident) {
@@ -508,7 +578,18 @@ func inlineInFile(fset *token.FileSet, p *packages.Package, f *ast.File, helpers
 				if h == nil || !ensureImports(h) {
 					return true
 				}
-				lit, args := helperLiteral(h, x, info)
+				if h.localWrapper {
+					if e := substituteWrapper(h, x, info); e != nil {
+						c.Replace(e)
+						n++
+						return false
+					}
+				}
+				sub, _, okSub := typeSubst(h, x, info, f, p)
+				if !okSub {
+					return true
+				}
+				lit, args := helperLiteral(h, x, info, sub)
 				if lit == nil {
 					return true
 				}
@@ -518,6 +599,26 @@ func inlineInFile(fset *token.FileSet, p *packages.Package, f *ast.File, helpers
 			}
 			return true
 		}, nil)
+	}
+	// hoistCall: a helper call that is the whole controlling expression of a statement (evaluated
+	// once, first) is computed into a temporary in front of it, where it can be inlined as a statement
+	hoisted := 0
+	hoistCall := func(c *ast.CallExpr, fn *ast.FuncDecl) ([]ast.Stmt, *ast.Ident) {
+		h := target(c)
+		if h == nil || h.mustLit || h.localWrapper {
+			return nil, nil
+		}
+		if h.obj.Type().(*types.Signature).Results().Len() != 1 {
+			return nil, nil
+		}
+		hoisted++
+		name := fmt.Sprintf("inlH%d_%d", label, hoisted)
+		as := &ast.AssignStmt{Lhs: []ast.Expr{ast.NewIdent(name)}, Tok: token.DEFINE, Rhs: []ast.Expr{c}}
+		pre := rewriteStmt(as, fn)
+		if pre == nil {
+			return nil, nil
+		}
+		return pre, ast.NewIdent(name)
 	}
 	rewriteStmt = func(s ast.Stmt, fn *ast.FuncDecl) []ast.Stmt {
 		var call *ast.CallExpr
@@ -548,15 +649,59 @@ func inlineInFile(fset *token.FileSet, p *packages.Package, f *ast.File, helpers
 					return []ast.Stmt{&ast.BlockStmt{List: append(pre, x)}}
 				}
 			}
+			if c, ok := x.Cond.(*ast.CallExpr); ok && x.Init == nil {
+				if pre, id := hoistCall(c, fn); pre != nil {
+					x.Cond = id
+					return []ast.Stmt{&ast.BlockStmt{List: append(pre, x)}}
+				}
+			}
+		case *ast.RangeStmt:
+			// the range operand is evaluated once, before the first iteration
+			if c, ok := x.X.(*ast.CallExpr); ok {
+				if pre, id := hoistCall(c, fn); pre != nil {
+					x.X = id
+					return []ast.Stmt{&ast.BlockStmt{List: append(pre, x)}}
+				}
+			}
+		case *ast.SwitchStmt:
+			if c, ok := x.Tag.(*ast.CallExpr); ok && x.Init == nil {
+				if pre, id := hoistCall(c, fn); pre != nil {
+					x.Tag = id
+					return []ast.Stmt{&ast.BlockStmt{List: append(pre, x)}}
+				}
+			}
 		}
 		if call == nil {
 			return nil
 		}
 		h := target(call)
-		if h == nil || h.mustLit || !ensureImports(h) {
+		if h == nil || !ensureImports(h) {
 			return nil
 		}
-		sig := h.obj.Type().(*types.Signature)
+		// a deferred call of the helper runs when the helper returns; spliced into `return h()`
+		// it runs when the caller returns - the same moment, before the caller's own (earlier)
+		// deferred calls, as before
+		if h.mustLit && (h.otherLit || kind != "return" || fn == nil) {
+			return nil
+		}
+		if h.localWrapper {
+			if e := substituteWrapper(h, call, info); e != nil {
+				switch x := s.(type) {
+				case *ast.ExprStmt:
+					x.X = e
+				case *ast.AssignStmt:
+					x.Rhs[0] = e
+				case *ast.ReturnStmt:
+					x.Results[0] = e
+				}
+				n++
+				return []ast.Stmt{s}
+			}
+		}
+		sub, sig, okSub := typeSubst(h, call, info, f, p)
+		if !okSub {
+			return nil
+		}
 		nres := sig.Results().Len()
 		switch kind {
 		case "assign":
@@ -578,11 +723,11 @@ func inlineInFile(fset *token.FileSet, p *packages.Package, f *ast.File, helpers
 				}
 			}
 		}
-		bind, ok := bindParams(h, call, info)
+		bind, ok := bindParams(h, call, info, sub)
 		if !ok {
 			return nil
 		}
-		body := copyNode(h.decl.Body).(*ast.BlockStmt)
+		body := substTypeParams(copyNode(h.decl.Body), sub).(*ast.BlockStmt)
 		n++
 		if kind == "return" {
 			// inside a function literal of the caller a return would leave the literal: correct, it
@@ -605,7 +750,7 @@ func inlineInFile(fset *token.FileSet, p *packages.Package, f *ast.File, helpers
 				}
 				for c := 0; c < cnt; c++ {
 					name := fmt.Sprintf("inl%dR%d", label, k)
-					pre = append(pre, &ast.DeclStmt{Decl: &ast.GenDecl{Tok: token.VAR, Specs: []ast.Spec{&ast.ValueSpec{Names: []*ast.Ident{ast.NewIdent(name)}, Type: copyNode(fl.Type).(ast.Expr)}}}})
+					pre = append(pre, &ast.DeclStmt{Decl: &ast.GenDecl{Tok: token.VAR, Specs: []ast.Spec{&ast.ValueSpec{Names: []*ast.Ident{ast.NewIdent(name)}, Type: substTypeParams(copyNode(fl.Type), sub).(ast.Expr)}}}})
 					targets = append(targets, ast.NewIdent(name))
 					tmps = append(tmps, ast.NewIdent(name))
 					k++
@@ -673,8 +818,150 @@ func inlineInFile(fset *token.FileSet, p *packages.Package, f *ast.File, helpers
 	return n
 }
 
+func isTypeParam(t types.Type) bool {
+	_, ok := t.(*types.TypeParam)
+	return ok
+}
+
+// typeSubst: for a call of a generic helper, the type arguments of the call as type expressions
+// valid in file f (nil, true for a helper that is not generic).
+func typeSubst(h *newHelper, call *ast.CallExpr, info *types.Info, f *ast.File, p *packages.Package) (map[string]ast.Expr, *types.Signature, bool) {
+	sig := h.obj.Type().(*types.Signature)
+	if len(h.tparams) == 0 {
+		return nil, sig, true
+	}
+	fun := call.Fun
+	for {
+		switch x := fun.(type) {
+		case *ast.IndexExpr:
+			fun = x.X
+			continue
+		case *ast.IndexListExpr:
+			fun = x.X
+			continue
+		case *ast.ParenExpr:
+			fun = x.X
+			continue
+		}
+		break
+	}
+	var id *ast.Ident
+	switch x := fun.(type) {
+	case *ast.Ident:
+		id = x
+	case *ast.SelectorExpr:
+		id = x.Sel
+	}
+	if id == nil {
+		return nil, nil, false
+	}
+	inst, ok := info.Instances[id]
+	if !ok || inst.TypeArgs == nil || inst.TypeArgs.Len() != len(h.tparams) {
+		return nil, nil, false
+	}
+	isig, ok := inst.Type.(*types.Signature)
+	if !ok {
+		return nil, nil, false
+	}
+	sub := map[string]ast.Expr{}
+	for i, name := range h.tparams {
+		e, ok := typeExprIn(inst.TypeArgs.At(i), f, p)
+		if !ok {
+			return nil, nil, false
+		}
+		sub[name] = e
+	}
+	return sub, isig, true
+}
+
+// typeExprIn renders a type as an expression that means the same in file f of package p (false
+// if the file does not import a package the type needs, or the type mentions something that has
+// no name there).
+func typeExprIn(t types.Type, f *ast.File, p *packages.Package) (ast.Expr, bool) {
+	missing := false
+	q := func(pkg *types.Package) string {
+		if pkg == p.Types {
+			return ""
+		}
+		for _, im := range f.Imports {
+			if strings.Trim(im.Path.Value, `"`) == pkg.Path() {
+				if im.Name != nil {
+					if im.Name.Name == "." || im.Name.Name == "_" {
+						missing = true
+					}
+					return im.Name.Name
+				}
+				return pkg.Name()
+			}
+		}
+		missing = true
+		return pkg.Name()
+	}
+	str := types.TypeString(t, q)
+	if missing {
+		return nil, false
+	}
+	e, err := parser.ParseExpr(str)
+	if err != nil {
+		return nil, false
+	}
+	stripPos(reflect.ValueOf(e))
+	return e, true
+}
+
+// stripPos clears every position of a freshly parsed tree (its positions belong to no file).
+func stripPos(v reflect.Value) {
+	switch v.Kind() {
+	case reflect.Ptr, reflect.Interface:
+		if !v.IsNil() {
+			stripPos(v.Elem())
+		}
+	case reflect.Struct:
+		for i := 0; i < v.NumField(); i++ {
+			fl := v.Field(i)
+			if fl.Type() == reflect.TypeOf(token.NoPos) {
+				if fl.CanSet() {
+					fl.SetInt(0)
+				}
+				continue
+			}
+			stripPos(fl)
+		}
+	case reflect.Slice:
+		for i := 0; i < v.Len(); i++ {
+			stripPos(v.Index(i))
+		}
+	}
+}
+
+// substTypeParams replaces the type parameter names in a copied tree by the type arguments.
+func substTypeParams(n ast.Node, sub map[string]ast.Expr) ast.Node {
+	if len(sub) == 0 || n == nil {
+		return n
+	}
+	return astutil.Apply(n, func(c *astutil.Cursor) bool {
+		switch x := c.Node().(type) {
+		case *ast.SelectorExpr:
+			// only the operand, never the selected name
+			x.X = substTypeParams(x.X, sub).(ast.Expr)
+			return false
+		case *ast.KeyValueExpr:
+			if _, isId := x.Key.(*ast.Ident); isId {
+				x.Value = substTypeParams(x.Value, sub).(ast.Expr)
+				return false
+			}
+		case *ast.Ident:
+			if e, ok := sub[x.Name]; ok {
+				c.Replace(copyNode(e))
+				return false
+			}
+		}
+		return true
+	}, nil)
+}
+
 // bindParams: `p, q := P(a), Q(b)` (receiver first), evaluated in the caller's scope.
-func bindParams(h *newHelper, call *ast.CallExpr, info *types.Info) ([]ast.Stmt, bool) {
+func bindParams(h *newHelper, call *ast.CallExpr, info *types.Info, sub map[string]ast.Expr) ([]ast.Stmt, bool) {
 	var names []ast.Expr
 	var vals []ast.Expr
 	var uses []ast.Stmt
@@ -686,7 +973,7 @@ func bindParams(h *newHelper, call *ast.CallExpr, info *types.Info) ([]ast.Stmt,
 		}
 		names = append(names, ast.NewIdent(name))
 		if typ != nil {
-			val = &ast.CallExpr{Fun: &ast.ParenExpr{X: copyNode(typ).(ast.Expr)}, Args: []ast.Expr{val}}
+			val = &ast.CallExpr{Fun: &ast.ParenExpr{X: substTypeParams(copyNode(typ), sub).(ast.Expr)}, Args: []ast.Expr{val}}
 		}
 		vals = append(vals, val)
 		uses = append(uses, &ast.AssignStmt{Lhs: []ast.Expr{ast.NewIdent("_")}, Tok: token.ASSIGN, Rhs: []ast.Expr{ast.NewIdent(name)}})
@@ -717,6 +1004,34 @@ func bindParams(h *newHelper, call *ast.CallExpr, info *types.Info) ([]ast.Stmt,
 		add(rname, nil, recv)
 	}
 	i := 0
+	// f(g()): the results of g are the parameters, in order
+	if h.decl.Recv == nil && h.decl.Type.Params != nil && len(call.Args) == 1 {
+		if tup, ok := info.TypeOf(call.Args[0]).(*types.Tuple); ok && tup.Len() > 1 {
+			var decls []ast.Stmt
+			var lhs []ast.Expr
+			var used []ast.Stmt
+			for _, fl := range h.decl.Type.Params.List {
+				if len(fl.Names) == 0 {
+					lhs = append(lhs, ast.NewIdent("_"))
+					continue
+				}
+				for _, nm := range fl.Names {
+					if nm.Name == "_" {
+						lhs = append(lhs, ast.NewIdent("_"))
+						continue
+					}
+					decls = append(decls, &ast.DeclStmt{Decl: &ast.GenDecl{Tok: token.VAR, Specs: []ast.Spec{&ast.ValueSpec{Names: []*ast.Ident{ast.NewIdent(nm.Name)}, Type: substTypeParams(copyNode(fl.Type), sub).(ast.Expr)}}}})
+					lhs = append(lhs, ast.NewIdent(nm.Name))
+					used = append(used, &ast.AssignStmt{Lhs: []ast.Expr{ast.NewIdent("_")}, Tok: token.ASSIGN, Rhs: []ast.Expr{ast.NewIdent(nm.Name)}})
+				}
+			}
+			if len(lhs) != tup.Len() {
+				return nil, false
+			}
+			decls = append(decls, &ast.AssignStmt{Lhs: lhs, Tok: token.ASSIGN, Rhs: []ast.Expr{copyNode(call.Args[0]).(ast.Expr)}})
+			return append(decls, used...), true
+		}
+	}
 	if h.decl.Type.Params != nil {
 		for _, fl := range h.decl.Type.Params.List {
 			if len(fl.Names) == 0 {
@@ -756,8 +1071,10 @@ func bindParams(h *newHelper, call *ast.CallExpr, info *types.Info) ([]ast.Stmt,
 }
 
 // helperLiteral: the helper as a function literal (receiver as first parameter) and the arguments.
-func helperLiteral(h *newHelper, call *ast.CallExpr, info *types.Info) (*ast.FuncLit, []ast.Expr) {
+func helperLiteral(h *newHelper, call *ast.CallExpr, info *types.Info, sub map[string]ast.Expr) (*ast.FuncLit, []ast.Expr) {
 	ft := copyNode(h.decl.Type).(*ast.FuncType)
+	ft.TypeParams = nil
+	ft = substTypeParams(ft, sub).(*ast.FuncType)
 	args := call.Args
 	if h.decl.Recv != nil {
 		sel, ok := call.Fun.(*ast.SelectorExpr)
@@ -785,7 +1102,7 @@ func helperLiteral(h *newHelper, call *ast.CallExpr, info *types.Info) (*ast.Fun
 		ft.Params.List = append([]*ast.Field{rf}, ft.Params.List...)
 		args = append([]ast.Expr{recv}, args...)
 	}
-	return &ast.FuncLit{Type: ft, Body: copyNode(h.decl.Body).(*ast.BlockStmt)}, args
+	return &ast.FuncLit{Type: ft, Body: substTypeParams(copyNode(h.decl.Body), sub).(*ast.BlockStmt)}, args
 }
 
 // rewriteReturns replaces `return v, e` by `{ targets = v, e; break label }` (not inside literals).
